@@ -186,7 +186,7 @@ def run(tier):
         if okc:
             c0 = json.loads(json.dumps(okc[0])); c0['id'] = 1
             c1 = json.loads(json.dumps(okc[0])); c1['id'] = 2
-            c1['b'][0][1] = c1['b'][0][1] + [48]
+            c1['b'][0][4][0][0] = [7, [122, 122, 122]]
             v2 = zinccodec.judge_cases(rep, work, [c0, c1], 'c03self', shards=1)
             ok = v2[1][0] == 'OK' and v2[2][0] == 'REJECT'
             rep.extra['binding_selftest'] = {'ok': ok, 'verdicts': [list(v2[1]), list(v2[2])]}
